@@ -61,6 +61,8 @@ var writers = []tmpl{
 	// the same write compiled to OpSetSelLocal / OpSetSelFree instead of OpSetSelGlobal
 	{"func(a) { a[0] = 9 }(X)", "local-indexset", ""},
 	{"func(a) { return func() { a[0] = 9 } }(X)()", "free-indexset", ""},
+	// spread into a variadic parameter: the callee's rest array must be fresh storage
+	{"func(...a) { a[0] = 9 }(X...)", "spread-indexset", ""},
 	{"splice(X, 0, 1)", "splice", ""},
 	{"splice(X, 0, 0, 7)", "splice", ""},
 	{`delete(X, "a")`, "delete", ""},
@@ -81,6 +83,7 @@ var derivers = []tmpl{
 	{"D = X + X", "plus", "D"},
 	{"D = X + [7]", "plus", "D"},
 	{"D = X + immutable([7])", "plus", "D"},
+	{"D = func(...a) { return a }(X...)", "spread", "D"},
 	{"D = copy(X)", "copy", "D"},
 	{"D = immutable(X)", "immutable", "D"},
 	// freeze: also evaluates `freeze(X) == X` (and X == X, to know whether == is
@@ -153,7 +156,7 @@ func buildOps() {
 // that appear in signatures.
 func routeOf(class string) string {
 	switch class {
-	case "local-indexset", "free-indexset", "iter-indexset", "alias-indexset":
+	case "local-indexset", "free-indexset", "iter-indexset", "alias-indexset", "spread-indexset":
 		return "indexset"
 	case "selset-newkey":
 		return "selset"
